@@ -65,9 +65,12 @@ def absorb(rep, t, st, r, secs, key, replay_fn, describe):
             rep.inconclusive('%s: %d simplifier lemma batches not re-proved' % (key, a['failed']))
 
 
+C12_UNIVERSES = [(None, 'a', (0, 1)), ((0, 0), (0, 1), (), None), ('b', frozenset([1]), 1.5, -1)]
+
+
 def run_c12(rep, tier):
     rep.level = 'model_checking'
-    rep.assumptions += ['nodes are small ints; set iteration follows one global order of the universe (forked over permutations)',
+    rep.assumptions += ['nodes are small ints (three runs with None / str / tuple / frozenset / float node values at n=3,4,4); set iteration follows one global order of the universe (forked over permutations)',
                         'graphs larger than the stated n are outside the claim']
     rep.cov['trusted_base'] = TRUSTED
     rep.cov['explanation'] = ('compute_SCCs, DiGraph.__init__/nodes/next executed symbolically from source on a graph whose n*n edge '
@@ -93,6 +96,9 @@ def run_c12(rep, tier):
     rep.cov['bounds'].update(n_max='5 (all 512 forks)' if tier == 'thorough' else '4 complete; 5: all loop-free graphs + 48 of the 496 remaining forks', orders='all 6 at n=3' + (', all 24 at n=4' if tier == 'thorough' else ''),
                              loop_bound='compute_SCCs while loops: n*n+n iterations; remaining-iteration guard is part of every query',
                              no_fold='n=2' + (' and n=3' if tier == 'thorough' else ''))
+    # node values other than small ints (None, str, tuple, frozenset, float mixes): the algorithm only hashes and compares them
+    for u in C12_UNIVERSES:
+        tasks.append((len(u), None, True, {}, False, u))
     graphs_covered = 0
     if tier == 'quick':
         # n=5: the 16 forks without self-loops and a seeded sample of 48 others (each fork covers 65,536 five-node graphs), no simplifier audit
@@ -110,7 +116,7 @@ def run_c12(rep, tier):
                 tasks.append((5, None, True, fx, False))
     for t, st, r, secs in pmap(graphs.scc_task, tasks):
         n, perm, fold, fixed = t[:4]
-        key = 'scc n=%d order=%s %s%s' % (n, perm or 'identity', 'folded' if fold else 'raw', (' fork=%s' % ''.join('1' if v else '0' for v in fixed.values())) if fixed else '')
+        key = 'scc n=%d order=%s %s%s%s' % (n, perm or 'identity', 'folded' if fold else 'raw', (' fork=%s' % ''.join('1' if v else '0' for v in fixed.values())) if fixed else '', (' nodes=%r' % (t[5],)) if len(t) > 5 else '')
         absorb(rep, t, st, r, secs, key, graphs.scc_replay, 'all digraphs on %d nodes: SCC partition == mutual reachability classes' % n)
         if st == 'ok' and r['verdict'] == 'unsat':
             graphs_covered += 2 ** (n * n - len(fixed))
